@@ -146,7 +146,8 @@ fn case_float(ctx: &mut Ctx, p: u8, s: i8, v: f64, as32: bool) {
             if !v.is_finite() { fails.push(("float_non_finite_accepted", format!("Decimal128({},{}) float {:?} stored as {}", p, s, v, z))); }
         }
         Out::Panic(m) => fails.push(("panic", format!("Decimal128({},{}) float {:e} panics: {}", p, s, v, m))),
-        Out::Err(_) => {}
+        // the same precision limit as for text: a finite float whose scaled, truncated value has at most `precision` digits is accepted
+        Out::Err(e) => { if let Some(z) = scaled { if v.is_finite() && (1..=38).contains(&p) && z.unsigned_abs() < 10u128.pow(p as u32) { fails.push(("float_within_precision_rejected", format!("Decimal128({},{}) float {:e} (scaled and truncated: {}) is rejected: {}", p, s, v, z, e))); } } }
     }
     ctx.count(&format!("float:{}", out.class()));
     let coq = format!("CFloat {}%nat {} {}", p, cf::option(&scaled, |z| cf::z(z)), out.coq(|z| cf::z(z)));
